@@ -2841,7 +2841,9 @@ def check_C10(tier: str, seed: int) -> int:
         mb = vplib.model_observe(paths, w.dir, 5)
         corr_fail, direct_fail = [], []
         for i, (seq, (chunks, owner, nl, ns, nt)) in enumerate(cases):
-            d = same_block(ib[i], mb[i], [1, 2, 6, 7])
+            # (lines 8 / 9: the tags with their frame ranges and names, in order - a record belongs to the tag it was written after,
+            # identified by what the tag IS, not only by its position)
+            d = same_block(ib[i], mb[i], [1, 2, 6, 7, 8, 9])
             if d:
                 corr_fail.append({"input": paths[i], "sequence": seq, "diff": d, "_data": open(paths[i], "rb").read()})
             if outcome(ib[i]) != 0:
@@ -2850,6 +2852,10 @@ def check_C10(tier: str, seed: int) -> int:
                 continue
             got = sorted(l for l in ib[i][0] if l and l[0] in (6, 7))
             exp = sorted(c10_expected(owner, nl, ns, nt))
+            names = [l[2:] for l in ib[i][0] if l and l[0] == 9]
+            if nt and names != [list(("T%d" % k).encode()) for k in range(nt)]:
+                direct_fail.append({"what": "the tags are not reported in the order of the tags chunk (records are attached by position)", "sequence": seq,
+                                    "got": names[:4], "_data": open(paths[i], "rb").read()})
             if got != exp:
                 direct_fail.append({"what": "user data is not attached to the entity it follows (or to something else as well)", "sequence": seq,
                                     "got": got[:6], "expected": exp[:6], "_data": open(paths[i], "rb").read()})
